@@ -3,7 +3,8 @@ from checks import unitscheck
 
 MENUS = {
     'quick': [
-        ('types', ['tA', 'tB', 'tM', 'tAB', 'tA2', 'tApB', 'tBi', 'tMpA', 'tA1', 'tA2_dup2', 'tA_dupsym'], 6),
+        ('types', ['tA', 'tB', 'tM', 'tAB', 'tA2', 'tApB', 'tBi', 'tMpA', 'tA1', 'tA2_dup2', 'tA_dupsym', 'tMpA_dup'], 6),
+        ('sameDef', ['tA', 'tA2', 'ka', 'ka2', 'kk', 'sq', 'ha', 'd_kk_ka', 'd_ka2_ka', 'm_ka_ka'], 7),
         ('units', ['tA', 'tB', 'tAB', 'tA2', 'ka', 'ha', 'cb', 'kab', 'ka2', 'kacb', 'sq', 'aa'], 7),
         ('terms3', ['tA', 'tB', 'ka', 'cb', 'kbc', 'kbc2', 'ha'], 7),
         ('quantized', ['tD', 'kd', 'td', 'hd', 'tA', 'ka'], 6),
